@@ -23,7 +23,7 @@ MB = ["a", "é", "ü", "€", "👋", "𐐀", "₂"]  # 1, 2, 2 (same first byte
 
 def cfgp():
     if TIER == "thorough":
-        return dict(D=6, cfg_space=(2, ["a", "b", EPS], 3), byte_spaces=[(2, ["a", "é", "ü", EPS], 3), (2, ["é", "€", "👋", EPS], 2), (1, ["a", "é", "ü", "€", "👋", "𐐀", "₂", EPS], 2), (2, ["𐐀", "₂", "é", EPS], 2)], merge_arcs=2, gdepth=3)
+        return dict(D=6, cfg_space=(2, ["a", "b", EPS], 4), byte_spaces=[(2, ["a", "é", "ü", EPS], 3), (2, ["é", "€", "👋", EPS], 2), (1, ["a", "é", "ü", "€", "👋", "𐐀", "₂", EPS], 2), (2, ["𐐀", "₂", "é", EPS], 2)], merge_arcs=2, gdepth=3)
     return dict(D=5, cfg_space=(2, ["a", "b", EPS], 3), byte_spaces=[(2, ["a", "é", "ü", EPS], 2), (1, ["a", "é", "ü", "€", "👋", "𐐀", "₂", EPS], 2)], merge_arcs=2, gdepth=2)
 
 
